@@ -50,6 +50,11 @@ def check_graph(n, edges):
                 bad.append(f"yield_bfsd on edges={edges} start={s} direction={d}: {got} vs distances {ref}")
             if [a.idx for a in m.yield_bfs(*args)] != [a for a, _ in got]:
                 bad.append(f"yield_bfs differs from yield_bfsd on edges={edges} start={s}")
+            # the same query with the atoms named by index (AtomLike)
+            iargs = (s,) + ((d,) if d is not None else ())
+            got_i = [(a.idx, dd) for a, dd in m.yield_bfsd(*iargs)]
+            if got_i != got:
+                bad.append(f"yield_bfsd on edges={edges} with atoms given by index start={s} direction={d}: {got_i}, by atom object: {got}")
     for k, (p, q) in enumerate(edges):
         rest = [e for j, e in enumerate(edges) if j != k]
         bridge = q not in ref_bfs(n, rest, p)
@@ -93,7 +98,7 @@ if sys.argv[1] == "--bounded":
                 if n == 4 and els.count("N") > 2:
                     continue
                 m = build(n, edges, els)
-                for pn, pedges in ((2, [(0, 1)]), (3, [(0, 1), (1, 2)]), (3, [(0, 1), (1, 2), (0, 2)])):
+                for pn, pedges in ((2, [(0, 1)]), (3, [(0, 1), (1, 2)]), (3, [(0, 1), (1, 2), (0, 2)]), (3, [(0, 2), (2, 1)]), (3, [(1, 2), (0, 2)])):
                     for pels in (("Unknown",) * pn, ("C",) + ("Unknown",) * (pn - 1), ("N", "C") + ("Unknown",) * (pn - 2)):
                         pat = ml.Connectivity(build(pn, pedges, [ml.Element.Unknown if e == "Unknown" else e for e in pels]))
                         got = {tuple(ix) for ix in m.get_substr_indices(pat)}
